@@ -34,9 +34,12 @@ def _capture_val(cfg, n_iter, k):
     return cap, so_
 
 
-def val_step(cfg, n_iter, i, k):
+def val_step(cfg, n_iter, i, k, k_carry=None):
+    """k: the period of the module given to solve; k_carry: the period of the module carried at iteration i (a module may
+    return a successor with another period: the schedule follows the carried module's)"""
+    k0, k = k, (k_carry or k)
     def build():
-        cap, so_ = _capture_val(cfg, n_iter, k)
+        cap, so_ = _capture_val(cfg, n_iter, k0)
         avals, treedef, body = cap.rec["avals"], cap.rec["treedef"], cap.rec["body"]
         inputs = c07.carry_inputs(avals, i)
         def mk(leaves, conc):
@@ -64,9 +67,29 @@ def val_step(cfg, n_iter, i, k):
                 return OptimizationExtraContainer(0, extra.best_val_params, False), OVal(val.state, call_every=k), crit1
             return c07.expected_step(cfg, n_iter, i, so_, cr, validation=hook)
         return dict(fn=fn, spec=spec, canary=(lambda *z: spec(*z, wrong=True)) if i > 0 else None, inputs=inputs)
-    ob = EqObligation(f"C19/_one_iteration/ensures.validation_schedule[i={i},call_every={k}]" + c07.cfg_tag(cfg, n_iter), build,
+    ob = EqObligation(f"C19/_one_iteration/ensures.validation_schedule[i={i},call_every={k0}{'' if k_carry is None else ',carried_module_call_every=' + str(k)}]" + c07.cfg_tag(cfg, n_iter), build,
                       [SM + "solve._one_iteration"])
     return ob
+
+
+def validation_loss_default_state_ob():
+    """first invocation of a module built with its default state (best value +inf, counter 0), in the working precision of
+    the check (x64): a finite validation loss is a strict new minimum and the new best value *is* that loss"""
+    def build():
+        so_ = make_opaques(c07.P_)
+        nb = nb_of(False, False)
+        def fn(theta, a, vs, w):
+            v = ValidationLoss(loss=OLoss(w=w, nb=nb), validation_data=OGen(vs, None, "v"), call_every=2, early_stopping=True, patience=3)
+            new, stop, val, improved = v(Params(nn_params=theta, eq_params={"a": a}))
+            return (new.counter, new.best_val_loss, stop, val, improved)
+        def spec(theta, a, vs, w, wrong=False):
+            largs = pts(theta) + [a[()]] + pts(w) + c07.call("Bv", pts(vs), B)
+            val = P.app(f"L{nb}", 0, (), largs)
+            return (arr(lambda _: P.ZERO, ()), arr(lambda _: val if not wrong else val + 1, ()), arr(lambda _: P.ZERO, ()), arr(lambda _: val, ()),
+                    arr(lambda _: P.ONE, ()))
+        return dict(fn=fn, spec=spec, canary=lambda *z: spec(*z, wrong=True),
+                    inputs=[Inp("theta", (c07.P_,)), Inp("a", ()), Inp("vs", (KS,)), Inp("w", (1,))])
+    return EqObligation("C19/ValidationLoss.__call__/ensures.first_invocation_from_the_default_state", build, [VM + "ValidationLoss.__call__"])
 
 
 def validation_loss_ob(with_param, with_obs):
@@ -148,6 +171,10 @@ def obligations(tier):
             for i in range(n_iter):
                 obs.append(val_step(cfgs[2], n_iter, i, 2))
     obs.append(val_step(cfgs[1], 3, 2, 2))
+    # a module whose successor has another period (warm-up schedules): the carried module's period decides
+    obs.append(val_step(cfgs[0], 5, 3, 2, k_carry=3))
+    obs.append(val_step(cfgs[0], 5, 4, 2, k_carry=3))
+    obs.append(val_step(cfgs[0], 5, 2, 3, k_carry=2))
     # with tracked parameters: the history rows are the iteration's own parameters, whatever validation retains
     for i in range(3):
         obs.append(val_step(cfgs[3], 3, i, 2))
@@ -157,6 +184,7 @@ def obligations(tier):
     for wp in (False, True):
         for wo in (False, True):
             obs.append(validation_loss_ob(wp, wo))
+    obs.append(validation_loss_default_state_ob())
     # guard: early stopping flag stops the loop (C07 obligation, needed by the lemma)
     for i in range(4):
         g = c07.guard(cfgs[0], 3, i)
